@@ -39,6 +39,7 @@ type cmdSpec struct {
 	Interspersed bool       `json:"interspersed"`
 	NoFlagParse  bool       `json:"disableFlagParsing"`
 	Whitelist    bool       `json:"whitelist"` // FParseErrWhitelist.UnknownFlags: the program tolerates unknown flags
+	Version      bool       `json:"version"`   // the command has a Version: cobra adds `--version` (`-v` if free) to it
 	Group        string     `json:"group"`     // cobra command group the sub-command belongs to ("" = none)
 	Dynamic      bool       `json:"dynamic"`   // the sub-command is added to its parent in the parent's carapace PreRun (completion time), not statically
 	Flags        []flagSpec `json:"flags"`
@@ -86,6 +87,9 @@ func buildTree(spec treeSpec, rec *runRecord) []*cobra.Command {
 		}
 		if cs.Deprecated {
 			c.Deprecated = "deprecated"
+		}
+		if cs.Version {
+			c.Version = "1.2.3"
 		}
 		c.Flags().SetInterspersed(cs.Interspersed)
 		c.FParseErrWhitelist.UnknownFlags = cs.Whitelist
@@ -436,7 +440,7 @@ func runParse(raw json.RawMessage) interface{} {
 
 // ---------------------------------------------------------------- generator
 
-var shortPool = []string{"a", "b", "c", "v", "n", "o"}
+var shortPool = []string{"a", "b", "c", "v", "n", "o", "a", "b", "c", "v", "n", "o", "?", "@"} // any ASCII character but `-` can be a shorthand
 
 func genTree(r *rng) treeSpec {
 	t := treeSpec{}
@@ -444,6 +448,7 @@ func genTree(r *rng) treeSpec {
 	n := 1 + r.intn(4)
 	for i := 0; i < n; i++ {
 		c := cmdSpec{Name: names[i], Parent: -1, Interspersed: !r.chance(20)}
+		c.Version = r.chance(12)
 		if i > 0 {
 			c.Parent = r.intn(i)
 			if r.chance(25) {
